@@ -2,11 +2,22 @@
 contract modules that must be loaded to decide it."""
 PROPS = {
     'C12': ['contracts.c12_cbc_check', 'contracts.recordlayer'],
-    'C01': ['contracts.c12_cbc_check', 'contracts.recordlayer'],
-    'C02': ['contracts.c12_cbc_check', 'contracts.recordlayer', 'contracts.m2_recordlayer'],
+    'C01': ['contracts.c12_cbc_check', 'contracts.recordlayer', 'contracts.sendmsg', 'contracts.m2_posthandshake', 'contracts.m2_recordio'],
+    'C02': ['contracts.c12_cbc_check', 'contracts.recordlayer', 'contracts.m2_recordlayer', 'contracts.m2_recordio', 'contracts.m2_getmsg', 'contracts.defragmenter'],
     'C18': ['contracts.sessioncache'],
-    'C19': ['contracts.settings'],
-    'C20': ['contracts.suites'],
-    'C03': ['contracts.suites'],
-    'C05': ['contracts.m2_client13'],
+    'C19': ['contracts.settings', 'contracts.m2_server'],
+    'C20': ['contracts.suites', 'contracts.m2_client'],
+    'C03': ['contracts.suites', 'contracts.m2_client', 'contracts.m2_server'],
+    'C05': ['contracts.m2_client13', 'contracts.m2_client', 'contracts.m2_posthandshake', 'contracts.m2_server'],
+    'C04': ['contracts.m2_client', 'contracts.m2_getmsg', 'contracts.m2_server'],
+    'C06': ['contracts.m2_client', 'contracts.m2_getmsg', 'contracts.defragmenter'],
+    'C13': ['contracts.m2_client', 'contracts.m2_posthandshake', 'contracts.m2_server'],
+    'C09': ['contracts.kdf'],
+    'C15': ['contracts.codec', 'contracts.messages_simple'],
+    'C08': ['contracts.codec', 'contracts.messages_simple', 'contracts.m2_recordlayer', 'contracts.m2_getmsg', 'contracts.m2_posthandshake', 'contracts.m2_recordio', 'contracts.m2_server'],
+    'C14': ['contracts.m2_recordlayer', 'contracts.m2_getmsg', 'contracts.defragmenter'],
+    'C16': ['contracts.m2_recordlayer', 'contracts.m2_getmsg', 'contracts.m2_posthandshake', 'contracts.sendmsg'],
+    'C17': ['contracts.m2_recordlayer', 'contracts.m2_getmsg', 'contracts.m2_posthandshake'],
+    'C11': ['contracts.c12_cbc_check', 'contracts.rsa', 'contracts.m2_server'],
+    'C10': ['contracts.c12_cbc_check', 'contracts.rsa', 'contracts.kex'],
 }
